@@ -5,7 +5,7 @@ CONSTANTS
   Level = 1
   ExtraBases <- ExtraGen
 VIEW view
-PROPERTIES HeaderChecksOK RoundTripOK IdempotentOK ReproOK DeviationOK WrapRejected
+PROPERTIES HeaderChecksOK RoundTripOK IdempotentOK ReproOK DeviationOK WrapRejected IndependentOK
 CONSTRAINT InitOut
 ACTION_CONSTRAINT Edge
 CHECK_DEADLOCK FALSE
